@@ -2,6 +2,7 @@ package utils
 
 import (
 	"runtime"
+	"sync"
 	"time"
 )
 
@@ -10,9 +11,18 @@ type Timer struct {
 	sleep  time.Duration
 	fn     func()
 	stopCh chan struct{}
+
+	// mu orders Stop/Refresh against the re-arming of an interval, so that an
+	// interval cancelled while a tick is being handled is not re-armed.
+	mu      sync.Mutex
+	stopped bool
 }
 
 func (t *Timer) Refresh() *Timer {
+	t.mu.Lock()
+	defer t.mu.Unlock()
+	t.stopped = false
+
 	defer t.timer.Reset(t.sleep)
 
 	if !t.timer.Stop() {
@@ -60,7 +70,12 @@ func ClearTimeout(timer *Timer) {
 }
 
 func (t *Timer) Stop() {
-	if t.timer.Stop() {
+	t.mu.Lock()
+	t.stopped = true
+	pending := t.timer.Stop()
+	t.mu.Unlock()
+
+	if pending {
 		t.stopCh <- struct{}{}
 	}
 }
@@ -75,7 +90,13 @@ func SetInterval(fn func(), sleep time.Duration) *Timer {
 		for {
 			select {
 			case <-timer.timer.C:
+				timer.mu.Lock()
+				if timer.stopped {
+					timer.mu.Unlock()
+					return
+				}
 				timer.timer.Reset(timer.sleep)
+				timer.mu.Unlock()
 				go fn()
 			case <-timer.stopCh:
 				return
